@@ -7186,8 +7186,11 @@ R_<TG_, TA_>::processTransitions(Transition& currentTransition) noexcept {
 	}
 	FFSM2_ASSERT(!_core.request);
 
-	if (currentTransition)
+	if (currentTransition) {
+		_core.registry.requested = currentTransition.destination;
+
 		_apex.deepChangeToRequested(control);
+	}
 
 	_core.registry.clearRequests();
 }
